@@ -12,6 +12,7 @@ import (
 	"verif/internal/pattern"
 	"verif/internal/qevent"
 	"verif/internal/racer"
+	"verif/internal/reqsim"
 	"verif/internal/sched"
 	"verif/internal/subs"
 )
@@ -20,7 +21,11 @@ var checks = map[string]func(*core.Ctx){
 	"C01": sched.Run,
 	"C02": sched.Run,
 	"C03": sched.Run,
+	"C04": reqsim.Run,
+	"C05": reqsim.Run,
 	"C06": muxdiff.Run,
+	"C07": reqsim.Run,
+	"C08": reqsim.Run,
 	"C09": subs.Run,
 	"C15": qevent.Run,
 	"C16": racer.Run,
@@ -42,6 +47,12 @@ func main() {
 		fmt.Sscan(os.Args[2], &seed)
 		fmt.Sscan(os.Args[3], &rounds)
 		racer.ChildMain(seed, rounds)
+		return
+	}
+	if os.Args[1] == "__req" && len(os.Args) == 4 {
+		var seed int64
+		fmt.Sscan(os.Args[3], &seed)
+		reqsim.ChildMain(os.Args[2], seed)
 		return
 	}
 	prop := os.Args[1]
